@@ -23,6 +23,6 @@ def finish(prop, tier, seed, res, t0, R):
                 'distinct non-trivial = distinct applied-parameter cells (ZSTD_trace) + script classes with >= 1 block',
         'frames_conformance_checked': res.stat('frames_conformance_checked'), 'compressed_blocks': res.stat('rule_compressed_blocks'), 'rle_blocks': res.stat('rule_rle_blocks'), 'frames_with_checksum': res.stat('rule_checksum_applicable'),
         'fse_table_blocks': res.stat('rule_fse_tables_applicable'), 'frames_with_offset_within_1pct_of_window': res.stat('frames_with_offset_near_window_bound'), 'frames_reaching_into_dict': res.stat('frames_reaching_into_dict'),
-        'alt_entry_cells': res.cells.get('alt_entry', {}), 'applied_cells': res.ncells('applied'), 'applied_windowlogs': sorted(int(k) for k in res.cells.get('applied_wlog', {})),
+        'frames_with_mid_frame_level_change(MT)': res.stat('frames_with_mid_frame_level_change'), 'alt_entry_cells': res.cells.get('alt_entry', {}), 'applied_cells': res.ncells('applied'), 'applied_windowlogs': sorted(int(k) for k in res.cells.get('applied_wlog', {})),
     }
     return core.finish(prop, tier, seed, 'exploration', res, cov, ['R + own XXH64 are the specification oracle', 'one-shot entry points are covered by C01 (R round trip) and C17 (sequence API); this check drives the streaming / MT entry points', 'sampling'], t0, R)
